@@ -21,6 +21,7 @@ RULE = ("Hypothesis builds rules from every FREQ, COUNT xor UNTIL (date / floati
         "the order of the text, re-encoding is byte-identical, and dateutil expands the same first 25 occurrences from "
         "rrule(**own mapping of the supplied parts) as from rrulestr(text) (RSCALE/SKIP/leap-month rules excluded from that "
         "clause and counted). Non-trivial: >= 2 BYxxx parts or an ordinal weekday or UNTIL; distinct by hash.")
+RULE += ' Rounds 7-8: zoned UNTIL at repeated and skipped wall times with fold 0/1.'
 ASSUMPTIONS = ["dateutil.rrule is the 'standard recurrence expander' of the statement", "UNTIL is a date, a floating date-time or an aware date-time (written in UTC: RFC 5545 gives UNTIL no TZID)"]
 REQUIRED_CLASSES = ["has-until", "ordinal-weekday", "leap-month", "rscale", "path:kwargs", "path:dict", "path:setitem", "occurrences-compared"]
 
